@@ -161,6 +161,15 @@ def t_exhaustive(ctx):
                 ctx.evals += 1
                 ctx.violation(v, {'kind': 'anycheck', 's': s})
     ctx.bulk(n * 3, nt, {'codec-string': n}, {'kind': 'string', 's': '11z'}, 'all strings over the alphabet of length <=3 (codec and Base58Check)' if ctx.shard == 0 else None)
+    # every length 0..520 (bytes) / 0..720 (characters) with patterned contents: length-dependent paths
+    for L in ctx.my(range(0, 721)):
+        if L <= 520:
+            ctx.run({'kind': 'bytes', 'b': bytes((L * 31 + i * 7 + 1) % 256 for i in range(L)).hex()})
+            ctx.run({'kind': 'bytes', 'b': (b'\xff' * L).hex()})
+        ctx.run({'kind': 'string', 's': ''.join(ALPHA[(L * 5 + i * 11 + 1) % 58] for i in range(L))})
+        ctx.run({'kind': 'string', 's': 'z' * L})
+    if ctx.shard == 0:
+        ctx.exhaustive.append('every byte-string length 0..520 and every string length 0..720 (two content patterns each)')
     for z in ctx.my(range(0, 41)):
         for tail in (b'', b'\x01', b'\xff\x00', b'\x00\x01'[1:], bytes(range(1, 30))):
             ctx.run({'kind': 'bytes', 'b': (b'\x00' * z + tail).hex()})
@@ -207,7 +216,31 @@ def s_versioned(draw):
             'picks': draw(st.lists(st.tuples(st.integers(0, 10 ** 6), st.integers(0, 57)).map(list), min_size=10, max_size=60))}
 
 
-s_codec = st.one_of(st.binary(max_size=300).map(lambda b: {'kind': 'bytes', 'b': b.hex()}),
+# lengths are drawn by CLASS: st.binary(max_size=300) alone averages ~5 bytes, so anything that only shows beyond one
+# machine word / 64 bytes / 256 characters (limb-wise conversions, length-dependent shortcuts) was almost never generated
+_len = st.one_of(st.integers(0, 8), st.integers(9, 64), st.integers(65, 140), st.integers(141, 600))
+
+
+@st.composite
+def _sized_bytes(draw):
+    n = draw(_len)
+    z = draw(st.sampled_from([0, 0, 0, 1, 2, 7, 33, 65]))
+    body = draw(st.binary(min_size=min(n, 24), max_size=min(n, 24)))
+    if n > 24:
+        body = (body * (n // 24 + 1))[:n - 4] + draw(st.binary(min_size=4, max_size=4))
+    return {'kind': 'bytes', 'b': (bytes(min(z, n)) + body[min(z, n):]).hex()}
+
+
+@st.composite
+def _sized_string(draw):
+    n = draw(_len)
+    z = draw(st.sampled_from([0, 0, 0, 1, 2, 7, 33, 65]))
+    head = draw(st.text(alphabet=ALPHA, min_size=min(n, 24), max_size=min(n, 24)))
+    s = head if n <= 24 else (head * (n // 24 + 1))[:n - 4] + draw(st.text(alphabet=ALPHA, min_size=4, max_size=4))
+    return {'kind': 'string', 's': '1' * min(z, n) + s[min(z, n):]}
+
+
+s_codec = st.one_of(st.binary(max_size=300).map(lambda b: {'kind': 'bytes', 'b': b.hex()}), _sized_bytes(), _sized_string(),
                     st.text(alphabet=ALPHA, max_size=400).map(lambda s: {'kind': 'string', 's': s}),
                     st.text(alphabet=ALPHA, max_size=12).map(lambda s: {'kind': 'anycheck', 's': s}),
                     st.text(alphabet=ALPHA + '0OIl +/', max_size=40).map(lambda s: {'kind': 'anycheck', 's': s}))
